@@ -145,6 +145,14 @@ pub fn eval(c: &ImgCase) -> CaseOut {
     let free_expected = dec.free;
     let devh = dev.handle();
     let width = g.width;
+    // ground truth of the status flags: boot-sector status byte OR the two flag bits of table entry 1 (FAT16/32)
+    let e1 = g.fat_raw(&img, g.active_copy(), 1);
+    let st_byte = refdec::rd8(&img, g.status_off());
+    let (want_dirty, want_ioerr) = match width {
+        16 => (st_byte & 1 != 0 || e1 & (1 << 15) == 0, st_byte & 2 != 0 || e1 & (1 << 14) == 0),
+        32 => (st_byte & 1 != 0 || e1 & (1 << 27) == 0, st_byte & 2 != 0 || e1 & (1 << 26) == 0),
+        _ => (st_byte & 1 != 0, st_byte & 2 != 0),
+    };
     let r = guard(move || {
         let clock = Clock::new(800_000_000_000);
         let s = Session::mount(&devh, &clock, &MountOpts::default()).map_err(|e| format!("mount failed: {:?}", e))?;
@@ -169,8 +177,8 @@ pub fn eval(c: &ImgCase) -> CaseOut {
             return Err(format!("stats reports {} free clusters, the table has {}", st.free_clusters(), free_expected));
         }
         let fl = fs.read_status_flags().map_err(|e| format!("status flags: {:?}", e))?;
-        if fl.dirty() || fl.io_error() {
-            return Err(format!("status flags dirty={} io_error={} on a clean volume", fl.dirty(), fl.io_error()));
+        if fl.dirty() != want_dirty || fl.io_error() != want_ioerr {
+            return Err(format!("status flags dirty={} io_error={}, the volume's boot sector and table entry 1 say dirty={} io_error={}", fl.dirty(), fl.io_error(), want_dirty, want_ioerr));
         }
         let t = lib_tree_chunked(&s.root(), chunk, "/", 0)?;
         Ok((s, t))
